@@ -11,6 +11,7 @@ from props import tagstore as TS
 
 ID = "C05"
 LEVEL = "model_checking"
+ISOLATE_SHARDS = True        # every shard runs in a forked child of a pristine worker (mc/core.py)
 RULE = ("closed store graph of the small configuration (states reached by the C03 same-type writes); from every state every "
         "request of the invalid-neighbourhood alphabet + cross-type matrix; every acknowledged write read back 3 ways on two "
         "sessions. non-trivial = distinct (state, request) that was refused, or acknowledged and read back")
@@ -223,7 +224,7 @@ def run(ctx):
     mk = ("MIXED", "mixed", 2, "cm", False)
     mcfg = TS.config("INT", "mixed")
     mroot = tuple((name, tuple([0.0 if typ in ("REAL", "LREAL") else 0] * (1 if ln is None else ln))) for name, typ, ln, _ in mcfg)
-    acc.merge(explore.bfs(ctx, __name__, "expand", [(mk, mroot)], chunk=4, splits=2, max_depth=2 if ctx.quick else 3,
+    acc.merge(explore.bfs(ctx, __name__, "expand", [(mk, mroot)], chunk=1, splits=2, max_depth=2 if ctx.quick else 3,
                           max_states=None if ctx.quick else 4000))
     acc.counters.pop("cap_hit", None)
     acc.note("config 'mixed' (six tags of different types) is depth-bounded (2 quick / 3 thorough); the other configurations closed")
@@ -270,3 +271,9 @@ def replay(case):
             msgs += [m for k, m in readback(rig, tag.name, True)]
     msgs += TS.seat_check(rig, case)
     return msgs
+
+
+def preload():
+    """import the code under test once in the (pristine) worker; shard children are forked from it"""
+    from mc import sim as _sim
+    _sim.mods()
